@@ -10,6 +10,7 @@ Line protocol of the layered stores (C15 overlay, C14 mount points).
   ov <U> <L> <init-ops of the fall-back> <history> <universe>
   mt <P> <default: N | ops> <table: - | prefix=ops;prefix=ops…> <history> <universe>
   mt.root <prefix> <key>
+  mt.rootchain <prefix>,<prefix>,… <key>      (to_root_key through nested mount-point stores, innermost prefix first)
 
 `<U>`, `<L>`, `<P>`: `M` = `memOps`, `S` = `specOps` (also the model of a `FileStore` part).
 keys: hex of `a/b` (`-` = root); op lists: `-` or ops joined by `,`:
@@ -152,6 +153,8 @@ def storeLayers (cmd : String) (args : List String) : Option String :=
       | "S" => mtRun specOps [] dflt table (decOps hist) (decKeys univ)
       | _ => "BADINPUT"
   | "mt.root", [p, k] => some (encKey (Pfx.inverse (decKey p) (decKey k)))
+  -- `mt.rootchain <prefix>,<prefix>,… <key>`: prefixes from the innermost layer outwards
+  | "mt.rootchain", [ps, k] => some (encKey (Mt.toRootKeyChain ((ps.splitOn ",").map decKey) (decKey k)))
   | _, _ => none
 
 end Liquer.Handlers
